@@ -106,7 +106,7 @@ def run(ctx):
                                      "the Go runtime (collector, stack copier, preemption) as the system under which generated code is sampled"]
     ctx.assumptions = [
         "OUTSIDE ANY PROOF: actual garbage collection, stack copying, asynchronous preemption and write-barrier execution while generated code is on the stack - only sampled (GOGC=1, GODEBUG=gccheckmark=1, SONIC_SYNC_GC=1, callbacks that call runtime.GC / runtime.Callers / debug.Stack and recurse deeply; a map key type with UnmarshalText that collects and churns the heap after its last use of the receiver; callbacks blocking on a channel / mutex / timer under the block profiler, the mutex profiler, the execution tracer and the CPU profiler; PretouchMany batches followed by tracebacks that resolve function names)",
-        "SONIC_SYNC_GC=1 is applied to the generated DECODER only (collection forced between every decoder opcode): the same switch makes the generated encoder call a Go function (println_wrapper) after every opcode, including between OP_map_iter and the OP_save that stores the fresh map iterator into the state stack; in that window the iterator is held in R11 only, so a collection started by another goroutine frees it (observed: zombie alg.MapIterator / missing map entries, 4 of 24 runs; 0 of 40 with the hook moved) - production code has no call in that window",
+        "SONIC_SYNC_GC=1 run: generated encoder and decoder both run under the debug switch (collection forced between decoder opcodes, a Go call after every encoder opcode); it is the regression run of fix f95f464 (FIX-C10-syncgc-encoder-hook)",
         "the local pointer maps of all generated functions are EMPTY (theorem C10_local_maps_empty): the local frame area is never scanned; that this is harmless (no pointer lives only in a local slot across a call) is not proved",
         "wb_coverage proves only that the list of un-barriered non-stack stores is exhaustive and exact; that each listed category (Scalar, Zero, TypeWord, StaticPointer, PointsIntoInput, FreshObject, SelfInterior, ParamNotHeap, ParamStack, BufferWriteback) really makes a barrier unnecessary is an argument made by reading the emitter (notes/C10.md), weakest for BufferWriteback (encoder save_buffer writes RP into *rb without a barrier)",
         "runtime.readvarint's uint32 accumulation and `shift & 31` are modelled without wrap; pcdata_wf bounds (pc < 2^28, |value| < 2^26) keep every encoding within 4 bytes where both agree",
@@ -282,10 +282,8 @@ Eval vm_compute in ("stores outside the helpers that are not listed", map key_of
     stats["profiler_and_name_runs"] = extra_runs
     for env, k in envs:
         gargs = ["-mode", "gc", "-n", str(k), "-seed", str(ctx.seed)]
-        if "SONIC_SYNC_GC" in env:
-            # decoder only: under SONIC_SYNC_GC the generated ENCODER calls println_wrapper after every opcode, also between
-            # OP_map_iter and OP_save where the new map iterator is held in a register only (debug-hook artefact, notes/C10.md)
-            gargs.append("-noenc")
+        # the SONIC_SYNC_GC run uses the generated encoder as well: it is the regression run of f95f464 (the encoder's debug hook
+        # used to call into Go between OP_map_iter and OP_save, where the fresh map iterator is held in a register only)
         rc, out = harness(gargs, timeout=(400 if not thorough else 2400), env=env)
         m = re.search(r"^OK rounds=(\d+) callbacks=(\d+) frames=(\d+) jit_frames=(\d+)", out, re.M)
         gc_runs.append({"env": env, "n": k, "rc": rc, "ok": bool(m) and rc == 0,
